@@ -85,6 +85,8 @@ runner.cleanup()
 P = ksrxml.POOL
 ZS = [skrgen.zsk(i) for i in range(4)] + [ksrxml.mk_key(P.rsa(1024, 3, 50), alg=10)]
 KS = {"ksk_current": skrgen.ksk("Kcur", 0), "ksk_next": skrgen.ksk("Knext", 1), "ksk_512": ksrxml.mk_key(P.rsa(1024, 65537, 160), alg=10, flags=257, ident="K512")}
+_ca, _cb = P.ec_tag_collision(13)
+ZTWIN = [ksrxml.mk_key(_ca, alg=13, ident="ZSK-twin-a"), ksrxml.mk_key(_cb, alg=13, ident="ZSK-twin-b")]      # two different ZSKs with the same 16-bit key tag
 P.save()
 vlib.WORK.mkdir(exist_ok=True)
 tmpd = tempfile.mkdtemp(prefix="c11-", dir=str(vlib.WORK))
@@ -111,6 +113,8 @@ for i in range(30 * SCALE):
     nb = 1 + i % 9
     zsl = [[R.choice(ZS)] + ([R.choice(ZS[:4])] if R.random() < 0.4 else []) for _ in range(nb)]
     zsl = [list({k["pub"]: k for k in ks}.values()) for ks in zsl]
+    if i % 6 == 2:
+        zsl[R.randrange(nb)] = list(ZTWIN) + ([R.choice(ZS[:4])] if R.random() < 0.5 else [])      # a roll between two keys whose tags collide
     rq = skrgen.honest_request(f"{R.randrange(16**8):08x}-{R.randrange(16**4):04x}", NOW + D(days=R.randrange(0, 50), seconds=R.randrange(86400)), nb, zsl,
                                ksrxml.default_zsk_policy(**{k: rand_dur() for k in ("publish_safety", "retire_safety", "max_validity", "min_validity", "max_overlap", "min_overlap")},
                                                          algs=[("RSA", 8, 1024, 65537)] + ([("RSA", 10, 1024, 3)] if R.random() < 0.5 else [])), sign=False)
